@@ -71,6 +71,14 @@ def run_property(prop: str, tier: str, seed: int, only_rule: str | None = None) 
                               found=f"ValueError at {e.where} whenever the selection is empty", explanation=f"{qual or file}: one element is taken (.item(), [0], an unpacking) from a result that is empty for part of the valid "
                               f"inputs - the positions where the temperature grid is zero (none when T_MIN > 0), the residuals of a least-squares system that is not over-determined - "
                               f"and the call raises there: the calculation cannot complete", instance=f"{qual or file}: raises on an empty selection")
+            elif exc == "IntegerDtype":
+                # wrong (not: raising) for part of the valid input domain: an operation that keeps an integer element type is applied to a grid that is integer-typed for whole-number settings
+                file, _, line = (e.where or "").partition(":")
+                line = int(line) if line.isdigit() else 0
+                qual = function_at(model, file, line)
+                ctx.violation("integer-grid", Where(file or "cij", qual, line), expected="floating-point arithmetic on the temperature grid whatever its element type",
+                              found=f"integer arithmetic at {e.where} when the grid is integer-typed", explanation=f"{qual or file}: {getattr(e, 'detail', 'an integer-preserving operation on a grid that can be integer-typed')}",
+                              instance=f"{qual or file}: integer-typed grid")
             else:
                 ctx.error(e.reason, e.where)
         except RecursionError:
